@@ -32,7 +32,7 @@ theorem mem_powerLinks {links : List Nat} (hnd : links.Nodup) (i j : Nat) (on : 
       split
       next h => subst h; simp [hj]
       next h => rfl
-    · simp only [hc, not_true_eq_false, false_and, if_false, Bool.false_eq_true, not_false_eq_true,
+    · simp only [hc, not_true_eq_false, if_false, Bool.false_eq_true, not_false_eq_true,
         and_self, if_true, List.mem_append, List.mem_singleton]
       split
       next h => simp [h]
@@ -287,5 +287,96 @@ theorem runningOf_powerWorld {w : World} {j : Nat} {t : Trx} (hw : w.trxs[j]? = 
     | none => rfl
     | some x => simp only [Option.map_some, powerSet_running]
   · rfl
+
+/-- effect of any operation on the power state of any transceiver -/
+theorem runningOf_step (w : World) (op : Op) (k : Nat) :
+    runningOf (step w op).world k =
+      match powerCmd op with
+      | some (j, true) =>
+        if accepted w j && affects w j k then (runningOf w k).map (fun _ => true) else runningOf w k
+      | some (j, false) =>
+        if affects w j k then (runningOf w k).map (fun _ => false) else runningOf w k
+      | none => runningOf w k := by
+  rcases step_world_cases w op with ⟨hp, f⟩ | ⟨j, on, hp, hw, h⟩ | ⟨j, t, hp, hw, ha, h⟩ |
+      ⟨j, t, hp, hw, ha, h⟩ | ⟨j, t, hp, hw, h⟩
+  · rw [hp]; exact f.runningOf k
+  · rw [hp, h]
+    have hacc : accepted w j = false := by simp only [accepted, hw]
+    cases on with
+    | true => simp only [hacc, Bool.false_and, Bool.false_eq_true, if_false]
+    | false =>
+      simp only []
+      split
+      next haf =>
+        have : k = j := by simpa [affects, hw] using haf
+        subst this
+        simp only [runningOf, hw, Option.map_none]
+      · rfl
+  · rw [hp, h]; simp only [ha, Bool.false_and, Bool.false_eq_true, if_false]
+  · rw [hp, h, runningOf_powerWorld hw]; simp only [ha, Bool.true_and]
+  · rw [hp, h, runningOf_powerWorld hw]
+
+
+/-! ### the last-power-command fold follows the model -/
+
+theorem spec_step_inv {w : World} {cur : Nat → Bool}
+    (h : ∀ (k : Nat) (t : Trx), w.trxs[k]? = some t → t.running = cur k) (op : Op) :
+    ∀ (k : Nat) (t : Trx), (step w op).world.trxs[k]? = some t → t.running = specPowerStep w op cur k := by
+  intro k t' ht'
+  have hacc : ∀ j, accepted w j = (!cur j && readyOf w j) := by
+    intro j
+    unfold accepted readyOf
+    cases hj : w.trxs[j]? with
+    | none => simp
+    | some t => simp only [h j t hj]
+  have hk : k < w.trxs.length := by rw [← step_length w op]; exact lt_of_getElem? ht'
+  obtain ⟨t, ht⟩ : ∃ t, w.trxs[k]? = some t := ⟨w.trxs[k], List.getElem?_eq_getElem hk⟩
+  have hps := runningOf_step w op k
+  simp only [runningOf, ht', ht, Option.map_some] at hps
+  unfold specPowerStep
+  cases hp : powerCmd op with
+  | none => rw [hp] at hps; simp only [Option.some.injEq] at hps; rw [hps]; exact h k t ht
+  | some jo =>
+    obtain ⟨j, on⟩ := jo
+    rw [hp] at hps
+    cases on with
+    | true =>
+      simp only [] at hps ⊢
+      rw [← hacc j]
+      split at hps <;> rename_i hc
+      · rw [if_pos hc]; simpa using hps
+      · rw [if_neg hc]; simp only [Option.some.injEq] at hps; rw [hps]; exact h k t ht
+    | false =>
+      simp only [] at hps ⊢
+      split at hps <;> rename_i hc
+      · rw [if_pos hc]; simpa using hps
+      · rw [if_neg hc]; simp only [Option.some.injEq] at hps; rw [hps]; exact h k t ht
+
+theorem spec_run_inv (ops : List Op) : ∀ (w : World) (cur : Nat → Bool),
+    (∀ (k : Nat) (t : Trx), w.trxs[k]? = some t → t.running = cur k) →
+    ∀ (k : Nat) (t : Trx), (run w ops).1.trxs[k]? = some t → t.running = specRunningFrom w cur ops k := by
+  induction ops with
+  | nil => intro w cur h k t ht; exact h k t ht
+  | cons op ops ih =>
+    intro w cur h k t ht
+    rw [run_cons_world] at ht
+    exact ih _ _ (spec_step_inv h op) k t ht
+
+
+/-! ### clock indications -/
+
+theorem filterMap_links {w : World} (f : Trx → Dgram) (l : List Nat)
+    (h : ∀ i ∈ l, ∃ t, w.trxs[i]? = some t ∧ t.hasClock = true ∧ t.running = true) :
+    l.filterMap (fun i => (w.trxs[i]?).map f) = (runningClockOwners w l).map f ∧
+    (runningClockOwners w l).map some = l.map (fun i => w.trxs[i]?) := by
+  induction l with
+  | nil => exact ⟨rfl, rfl⟩
+  | cons i l ih =>
+    obtain ⟨t, ht, h1, h2⟩ := h i List.mem_cons_self
+    obtain ⟨ih1, ih2⟩ := ih (fun i hi => h i (List.mem_cons_of_mem _ hi))
+    unfold runningClockOwners at ih1 ih2 ⊢
+    simp only [List.filterMap_cons, ht, Option.map_some, h1, h2, Bool.and_self, if_true, List.map_cons,
+      ih1, ih2, and_self]
+
 
 end OsmoVerif.WorldPower
